@@ -50,7 +50,19 @@ type (
 		Body   Expr
 	}
 	ECond struct{ C, A, B Expr } // ite(c, a, b)
+	ETypeAssert struct {
+		X    Expr
+		Type string
+		Test bool // x.is(T) instead of x.(T)
+	}
 )
+
+func (e ETypeAssert) exprString() string {
+	if e.Test {
+		return e.X.exprString() + ".is(" + e.Type + ")"
+	}
+	return e.X.exprString() + ".(" + e.Type + ")"
+}
 
 type Param struct {
 	Name string
@@ -396,9 +408,25 @@ func (p *specParser) parsePostfix() Expr {
 		switch {
 		case p.isOp("."):
 			p.next()
+			if p.isOp("(") {
+				// x.(T): the value of dynamic type T inside the interface value x
+				p.next()
+				ty := p.parseTypeText()
+				p.expectOp(")")
+				x = ETypeAssert{x, ty, false}
+				continue
+			}
 			n := p.next()
 			if n.kind != "id" {
 				p.fail("expected field name after '.', found %q", n.text)
+			}
+			if n.text == "is" && p.isOp("(") {
+				// x.is(T): the dynamic type of the interface value x is T
+				p.next()
+				ty := p.parseTypeText()
+				p.expectOp(")")
+				x = ETypeAssert{x, ty, true}
+				continue
 			}
 			if p.isOp("(") {
 				p.next()
